@@ -14,7 +14,7 @@ def run(ctx):
     if s["extra"]["tool_ok"] < 100:
         raise core.Machinery("mp4ff-crop succeeded on fewer than 100 inputs (dead driver?)")
     ctx.cov["bounds"] = {"video": "N in %s samples, constant/alternating durations, every sync set containing sample 1 or no stss, with/without ctts, all chunkings" % ("{3,4}" if q else "{2..5}"),
-                         "audio": "optional second track (3 or 7 equal samples, or 2 samples with a long last one so that the track is kept whole; timescale 500) and audio-only files", "layouts": ["stco", "co64", "mdat before moov", "edit lists", "mdat with largesize header (after and before moov)"],
+                         "audio": "optional second track (3 or 7 equal samples, or 2 samples with a long last one so that the track is kept whole; timescale 500) and audio-only files", "layouts": ["stco", "co64", "mdat before moov", "edit lists", "mdat with largesize header (after and before moov)", "chunks interleaved in reverse trak order"],
                          "durations": "every sample start of the reference track in ms, +-1 ms, and past the end",
                          "tool_ok": s["extra"]["tool_ok"], "tool_failed": s["extra"]["tool_failed"]}
     ctx.cov["rule"] = ("behaviours = (file, duration) pairs of Crop.tla; the built mp4ff-crop binary runs on the materialised file; judged only when it "
